@@ -62,9 +62,19 @@ UnsoundDyn(inst, o, h) ==
               args == {DynArg(inst, o, h, fs[j]) : j \in 1..Len(fs)}
               all == Probe(inst, o, <<>>, h.prop, ty) \cup {x \in args \cup UNION {Elems(a) : a \in args} : Fits(x, ty)}
           IN {x \in all : (\A j \in 1..Len(fs) : FilterOp(fs[j].op, x, DynArg(inst, o, h, fs[j]))) /\ ~Contains(h.cand, x)}
+(* mandatory edges: an edge the engine reports as mandatory for vertex vid must be one without which no row can exist - a plain edge
+   (not @optional, not @recurse, whose depth 0 is the vertex itself), or a @fold whose statically known count filters reject the count 0 *)
+ItemsFrom(ir, vid, name) ==
+  UNION {{ir.comps[c].items[k] : k \in {k \in 1..Len(ir.comps[c].items) : ir.comps[c].items[k].from = vid /\ ir.comps[c].items[k].name = name}} : c \in 1..Len(ir.comps)}
+ForcesElement(o, it) ==
+  \E j \in 1..Len(it.post) : it.post[j].arg.k = "var" /\ ~FilterOp(it.post[j].op, IntV(0), o.args[it.post[j].arg.n])
+TrulyMandatory(o, it) == IF it.kind = "fold" THEN ForcesElement(o, it) ELSE ~it.optional /\ it.depth = 0
+UnsoundMandatory(o, h) == ~\E it \in ItemsFrom(o.ir, h.vid, h.edge) : TrulyMandatory(o, it)
 Judged == ph = 0 \/
   LET inst == Insts[i]  o == Obs[i]
-      U(h) == IF h.kind = "static" THEN Unsound(inst, o, h) ELSE UnsoundDyn(inst, o, h)
+      U(h) == CASE h.kind = "static" -> Unsound(inst, o, h)
+                [] h.kind = "dynamic" -> UnsoundDyn(inst, o, h)
+                [] OTHER -> IF UnsoundMandatory(o, h) THEN {Null} ELSE {}
       bad == {j \in 1..Len(o.hints) : U(o.hints[j]) # {}}
   IN IF bad = {} THEN PrintT(<<"VERDICT", inst.id, "hint.ok", Len(o.hints)>>)
      ELSE LET j == CHOOSE j \in bad : TRUE IN
